@@ -227,6 +227,18 @@ ClassesN(t) ==
     [] t.k \in {"loop", "not"} -> ClassesN(t.a)
     [] t.k \in {"alt", "and"} -> OverlayAll({ClassesN(x) : x \in t.s})
 
+(* ReManager::start_char, case by case: a concatenation starts with c if its head does and the tail is not empty, *)
+(* or the head is nullable and the tail starts with c; intersections and complements are decided on the        *)
+(* derivative.  Emptiness is the exact test of module Regex (the crate calls is_empty_re).                     *)
+RECURSIVE StartN(_, _)
+StartN(t, c) ==
+  CASE t.k \in {"none", "eps"} -> FALSE
+    [] t.k = "rng"  -> t.lo <= c /\ c <= t.hi
+    [] t.k = "cat2" -> (StartN(t.a, c) /\ NonEmpty(Ke(t.b))) \/ (NulN(t.a) /\ StartN(t.b, c))
+    [] t.k = "loop" -> StartN(t.a, c)
+    [] t.k = "alt"  -> \E x \in t.s : StartN(x, c)
+    [] t.k \in {"and", "not"} -> NonEmpty(Ke(DerivN(t, c)))
+
 (* exact language equality of two N-terms *)
 SameLang(a, b) == Equiv(Ke(a), Ke(b))
 =============================================================================
